@@ -146,8 +146,9 @@ func registerSched() {
 	run.Register(&SchedCheck{Id: "C07", PodGroupLag: true, Profile: "fairness", Quick: 1200, Thorough: 12000,
 		Gen: func(seed int64, idx int, tier string) *spec.Case {
 			if idx%3 == 1 { // a third of the cases: department-contention clusters (uneven trees, reclaim in every case)
-				// half of them with quotas that add up to 1-3 devices less than the capacity (fair shares above the quotas)
-				c := gen.ContentionWith(seed, idx, tier, gen.ContentionOpts{Surplus: []int{0, 1, 0, 2, 0, 3}[(idx/3)%6]})
+				// (gen.ContentionOpts.Surplus - quotas adding up to less than the capacity - was tried here and dropped again:
+				// it did not raise the density of C07-a and lost the one case that showed C07-c)
+				c := gen.Contention(seed, idx, tier)
 				c.World.Closed = idx%2 == 0 // half of them as open systems (evicted pods are gone)
 				return c
 			}
